@@ -24,6 +24,17 @@
 //!   start                                         ;; at-start <name>=<state>…  what `on_start` saw in every item
 //!   restored <item>                               ;; val=<hex> | map=<entries> | none   what a sync (or the probe) saw
 //! (states: `val=<hex>` / `val=none`, `map=<khex>:<vhex>,…` sorted by key bytes, `map=-` when empty)
+//!
+//! The `late` rig (`cfg late …`): the agent is a harness-implemented `Agent` (`LateAgent`) run by the same real
+//! runtime. It registers the lanes `iv` (value) and `im` (map) during the initialisation phase and, on the scripted
+//! step `addlane <name> <value|map> <transient>`, calls `AgentContext::add_lane` WHILE THE AGENT IS RUNNING
+//! (→ `WriteTaskMessage::Lane` → `handle_task_message` → `Initialization::add_lane` → `TaskMessageResult::AddLane`);
+//! the harness plays the lane side of the protocol on the returned channels (initialisation from the store:
+//! `Command`* `InitComplete` → `Initialized`; commands → `StandardEvent`; `Sync` → `SyncEvent`* `Synced`).
+//!   added <name> <ok|err>   ;; ok     `add_lane` returned the channels / an error
+//!   init <name>    ;; val=… | map=…       what the lane held when its initialisation was complete
+//! After the cut / stop a fresh agent is started on the same store, the same lanes are registered again (at run
+//! time, or — `reinit=early` — during initialisation), and every lane is synced (`restored` lines).
 use std::cell::RefCell;
 use std::collections::{BTreeMap, HashMap};
 use std::future::Future;
@@ -34,8 +45,9 @@ use std::sync::Arc;
 use std::time::Duration;
 
 use bytes::{Bytes, BytesMut};
-use futures::future::ready;
-use futures::{SinkExt, StreamExt};
+use futures::future::{ready, BoxFuture};
+use futures::stream::FuturesUnordered;
+use futures::{FutureExt, SinkExt, StreamExt};
 use parking_lot::Mutex;
 use svh::{hex, parse_args, Mode, Rng, Trace};
 use swimos::agent::agent_lifecycle::HandlerContext;
@@ -45,7 +57,13 @@ use swimos::agent::lanes::{CommandLane, MapLane, ValueLane};
 use swimos::agent::stores::{MapStore, ValueStore};
 use swimos::agent::{lifecycle, projections, AgentLaneModel};
 use swimos_api::address::RelativeAddress;
-use swimos_api::agent::{AgentConfig, LaneConfig};
+use swimos_agent_protocol::encoding::lane::{
+    RawMapLaneRequestDecoder, RawMapLaneResponseEncoder, RawValueLaneRequestDecoder, RawValueLaneResponseEncoder,
+};
+use swimos_agent_protocol::{LaneRequest, LaneResponse, MapMessage, MapOperation};
+use swimos_api::agent::{Agent, AgentConfig, AgentContext, AgentInitResult, LaneConfig, WarpLaneKind};
+use swimos_api::error::AgentTaskError;
+use swimos_utilities::routing::RouteUri;
 use swimos_api::error::StoreError;
 use swimos_api::persistence::{KeyValue, NodePersistence, RangeConsumer};
 use swimos_messages::protocol::{
@@ -57,7 +75,7 @@ use swimos_runtime::agent::{
 };
 use swimos_utilities::byte_channel::{byte_channel, ByteReader, ByteWriter};
 use swimos_utilities::trigger::{self, promise};
-use tokio::sync::{mpsc, watch, Notify};
+use tokio::sync::{mpsc, oneshot, watch, Notify};
 use tokio::task::{JoinHandle, LocalSet};
 use tokio_util::codec::{FramedRead, FramedWrite};
 use uuid::Uuid;
@@ -164,6 +182,281 @@ impl PLife {
                 .boxed_local(),
             _ => UnitHandler::default().boxed_local(),
         }
+    }
+}
+
+// ------------------------------------------------------------------------------------------------ the late rig
+
+/// Lanes of the late rig: (name, is map, transient, registered during the initialisation phase).
+const LATE_LANES: &[(&str, bool, bool, bool)] = &[
+    ("iv", false, false, true),
+    ("im", true, false, true),
+    ("lv", false, false, false),
+    ("lw", false, false, false),
+    ("lm", true, false, false),
+    ("lt", false, true, false),
+    ("lmt", true, true, false),
+];
+
+enum AgentCmd {
+    /// call `AgentContext::add_lane` now (the agent is running); `done` fires when the lane is initialised
+    AddLane { name: String, map: bool, transient: bool, done: oneshot::Sender<()> },
+}
+
+/// An `Agent` implemented by the harness: registers `early` during initialisation, further lanes on command.
+struct LateAgent {
+    log: Arc<Mutex<Log>>,
+    early: Vec<(String, bool, bool)>,
+    cmds: Arc<Mutex<Option<mpsc::UnboundedReceiver<AgentCmd>>>>,
+}
+
+fn lane_cfg(transient: bool) -> LaneConfig {
+    let buf = NonZeroUsize::new(4096).unwrap();
+    LaneConfig { input_buffer_size: buf, output_buffer_size: buf, transient }
+}
+
+/// The lane side of the value-lane protocol (state = raw bytes, default `0`).
+async fn value_lane(
+    name: String,
+    transient: bool,
+    io: (ByteWriter, ByteReader),
+    log: Arc<Mutex<Log>>,
+    done: Option<oneshot::Sender<()>>,
+) {
+    let (tx, rx) = io;
+    let mut rd = FramedRead::new(rx, RawValueLaneRequestDecoder::default());
+    let mut wr = FramedWrite::new(tx, RawValueLaneResponseEncoder::default());
+    let mut state: Vec<u8> = b"0".to_vec();
+    if !transient {
+        // initialisation from the store: the stored value (if any) as a command, then `InitComplete`
+        loop {
+            match rd.next().await {
+                Some(Ok(LaneRequest::Command(b))) => state = b.to_vec(),
+                Some(Ok(LaneRequest::InitComplete)) => break,
+                Some(Ok(LaneRequest::Sync(_))) => {}
+                _ => return,
+            }
+        }
+        if wr.send(LaneResponse::<&[u8]>::Initialized).await.is_err() {
+            return;
+        }
+    }
+    log.lock().push(format!("init {}", name), format!("val={}", hex(&state)));
+    if let Some(d) = done {
+        let _ = d.send(());
+    }
+    loop {
+        match rd.next().await {
+            Some(Ok(LaneRequest::Command(b))) => {
+                state = b.to_vec();
+                if wr.send(LaneResponse::StandardEvent(state.as_slice())).await.is_err() {
+                    return;
+                }
+            }
+            Some(Ok(LaneRequest::Sync(id))) => {
+                if wr.send(LaneResponse::SyncEvent(id, state.as_slice())).await.is_err()
+                    || wr.send(LaneResponse::<&[u8]>::Synced(id)).await.is_err()
+                {
+                    return;
+                }
+            }
+            Some(Ok(LaneRequest::InitComplete)) => {}
+            _ => return,
+        }
+    }
+}
+
+type MapSt = BTreeMap<Vec<u8>, Vec<u8>>;
+
+/// Applies a map message; returns the operations the lane publishes for it.
+fn map_apply(state: &mut MapSt, msg: MapMessage<BytesMut, BytesMut>) -> Vec<MapOperation<Vec<u8>, Vec<u8>>> {
+    match msg {
+        MapMessage::Update { key, value } => {
+            state.insert(key.to_vec(), value.to_vec());
+            vec![MapOperation::Update { key: key.to_vec(), value: value.to_vec() }]
+        }
+        MapMessage::Remove { key } => {
+            state.remove(key.as_ref());
+            vec![MapOperation::Remove { key: key.to_vec() }]
+        }
+        MapMessage::Clear => {
+            state.clear();
+            vec![MapOperation::Clear]
+        }
+        MapMessage::Take(n) => {
+            let gone: Vec<Vec<u8>> = state.keys().skip(n as usize).cloned().collect();
+            gone.into_iter()
+                .map(|k| {
+                    state.remove(&k);
+                    MapOperation::Remove { key: k }
+                })
+                .collect()
+        }
+        MapMessage::Drop(n) => {
+            let gone: Vec<Vec<u8>> = state.keys().take(n as usize).cloned().collect();
+            gone.into_iter()
+                .map(|k| {
+                    state.remove(&k);
+                    MapOperation::Remove { key: k }
+                })
+                .collect()
+        }
+    }
+}
+
+/// The lane side of the map-lane protocol.
+async fn map_lane(
+    name: String,
+    transient: bool,
+    io: (ByteWriter, ByteReader),
+    log: Arc<Mutex<Log>>,
+    done: Option<oneshot::Sender<()>>,
+) {
+    let (tx, rx) = io;
+    let mut rd = FramedRead::new(rx, RawMapLaneRequestDecoder::default());
+    let mut wr = FramedWrite::new(tx, RawMapLaneResponseEncoder::default());
+    let mut state: MapSt = BTreeMap::new();
+    if !transient {
+        loop {
+            match rd.next().await {
+                Some(Ok(LaneRequest::Command(msg))) => {
+                    map_apply(&mut state, msg);
+                }
+                Some(Ok(LaneRequest::InitComplete)) => break,
+                Some(Ok(LaneRequest::Sync(_))) => {}
+                _ => return,
+            }
+        }
+        if wr.send(LaneResponse::<MapOperation<Vec<u8>, Vec<u8>>>::Initialized).await.is_err() {
+            return;
+        }
+    }
+    {
+        let es: Vec<(Vec<u8>, Vec<u8>)> = state.iter().map(|(k, v)| (k.clone(), v.clone())).collect();
+        log.lock().push(format!("init {}", name), format!("map={}", render_entries(&es)));
+    }
+    if let Some(d) = done {
+        let _ = d.send(());
+    }
+    loop {
+        match rd.next().await {
+            Some(Ok(LaneRequest::Command(msg))) => {
+                for op in map_apply(&mut state, msg) {
+                    if wr.send(LaneResponse::StandardEvent(op)).await.is_err() {
+                        return;
+                    }
+                }
+            }
+            Some(Ok(LaneRequest::Sync(id))) => {
+                for (k, v) in state.iter() {
+                    let op = MapOperation::Update { key: k.clone(), value: v.clone() };
+                    if wr.send(LaneResponse::SyncEvent(id, op)).await.is_err() {
+                        return;
+                    }
+                }
+                if wr.send(LaneResponse::<MapOperation<Vec<u8>, Vec<u8>>>::Synced(id)).await.is_err() {
+                    return;
+                }
+            }
+            Some(Ok(LaneRequest::InitComplete)) => {}
+            _ => return,
+        }
+    }
+}
+
+fn lane_task(
+    name: String,
+    map: bool,
+    transient: bool,
+    io: (ByteWriter, ByteReader),
+    log: Arc<Mutex<Log>>,
+    done: Option<oneshot::Sender<()>>,
+) -> BoxFuture<'static, ()> {
+    if map {
+        map_lane(name, transient, io, log, done).boxed()
+    } else {
+        value_lane(name, transient, io, log, done).boxed()
+    }
+}
+
+fn warp_kind(map: bool) -> WarpLaneKind {
+    if map {
+        WarpLaneKind::Map
+    } else {
+        WarpLaneKind::Value
+    }
+}
+
+impl Agent for LateAgent {
+    fn run(
+        &self,
+        _route: RouteUri,
+        _route_params: HashMap<String, String>,
+        _config: AgentConfig,
+        context: Box<dyn AgentContext + Send>,
+    ) -> BoxFuture<'static, AgentInitResult> {
+        let log = self.log.clone();
+        let early = self.early.clone();
+        let mut cmd_rx = self.cmds.lock().take();
+        async move {
+            // ---- initialisation phase: register the early lanes and initialise them (as `AgentModel` does)
+            let mut pending: Vec<BoxFuture<'static, ()>> = vec![];
+            for (name, map, transient) in early {
+                let io = context.add_lane(&name, warp_kind(map), lane_cfg(transient)).await?;
+                log.lock().push(format!("added {} ok", name), "ok".into());
+                let (done_tx, done_rx) = oneshot::channel();
+                let mut lane = lane_task(name, map, transient, io, log.clone(), Some(done_tx));
+                // drive the lane until its initialisation is complete
+                tokio::select! {
+                    biased;
+                    _ = done_rx => {}
+                    _ = &mut lane => {}
+                }
+                pending.push(lane);
+            }
+            let task: BoxFuture<'static, Result<(), AgentTaskError>> = async move {
+                let lanes: FuturesUnordered<BoxFuture<'static, ()>> = pending.into_iter().collect();
+                let mut lanes = lanes;
+                loop {
+                    tokio::select! {
+                        cmd = async {
+                            match cmd_rx.as_mut() {
+                                Some(rx) => rx.recv().await,
+                                None => futures::future::pending().await,
+                            }
+                        } => {
+                            match cmd {
+                                Some(AgentCmd::AddLane { name, map, transient, done }) => {
+                                    // ---- a lane registered WHILE THE AGENT IS RUNNING
+                                    let fut = context.add_lane(&name, warp_kind(map), lane_cfg(transient));
+                                    let log = log.clone();
+                                    lanes.push(async move {
+                                        match fut.await {
+                                            Ok(io) => {
+                                                log.lock().push(format!("added {} ok", name), "ok".into());
+                                                lane_task(name, map, transient, io, log, Some(done)).await
+                                            }
+                                            Err(_) => log.lock().push(format!("added {} err", name), "ok".into()),
+                                        }
+                                    }.boxed());
+                                }
+                                None => cmd_rx = None,
+                            }
+                        }
+                        _ = lanes.next(), if !lanes.is_empty() => {
+                            if lanes.is_empty() {
+                                // every lane's channels are closed: the runtime has stopped
+                                break;
+                            }
+                        }
+                    }
+                }
+                Ok(())
+            }
+            .boxed();
+            Ok(task)
+        }
+        .boxed()
     }
 }
 
@@ -361,7 +654,7 @@ impl NodePersistence for RecStore {
 // ------------------------------------------------------------------------------------------------ frames
 
 const NODE: &str = "/node";
-const MAP_LANES: &[&str] = &["m"];
+const MAP_LANES: &[&str] = &["m", "im", "lm", "lmt"];
 
 fn rid(r: u64) -> Uuid {
     Uuid::from_u128(0x1000 + r as u128)
@@ -444,7 +737,18 @@ struct Run {
     stop_tx: Option<trigger::Sender>,
     remotes: BTreeMap<u64, RemoteH>,
     rbuf: usize,
+    /// late rig: commands to the harness-implemented agent
+    cmd_tx: Option<mpsc::UnboundedSender<AgentCmd>>,
     _keep: Rc<RefCell<Vec<Box<dyn std::any::Any>>>>,
+}
+
+/// Which agent is run.
+#[derive(Clone, Debug)]
+enum Spec {
+    /// the `AgentModel` of `PAgent` (all items registered during initialisation)
+    Model { transient: bool },
+    /// `LateAgent`: `early` lanes (name, map, transient) during initialisation, the rest on `addlane` steps
+    Late { early: Vec<(String, bool, bool)> },
 }
 
 const INACTIVE: Duration = Duration::from_secs(5);
@@ -460,15 +764,14 @@ fn err_kind(e: &AgentExecError) -> &'static str {
 }
 
 impl Run {
-    fn start(log: Arc<Mutex<Log>>, store: RecStore, transient: bool, rbuf: usize) -> Run {
+    fn start(log: Arc<Mutex<Log>>, store: RecStore, spec: &Spec, rbuf: usize) -> Run {
         let crash = log.lock().crash.clone();
-        let life = PLife { log: log.clone() };
-        let agent = AgentModel::new(PAgent::default, life.into_lifecycle());
         let (att_tx, att_rx) = mpsc::channel(8);
         let (http_tx, http_rx) = mpsc::channel(8);
         let (link_tx, link_rx) = mpsc::channel(8);
         let (stop_tx, stop_rx) = trigger::trigger();
         let buf = NonZeroUsize::new(4096).unwrap();
+        let transient = matches!(spec, Spec::Model { transient: true });
         let config = CombinedAgentConfig {
             agent_config: AgentConfig {
                 default_lane_config: Some(LaneConfig {
@@ -485,29 +788,43 @@ impl Run {
                 ..Default::default()
             },
         };
-        let task = AgentRouteTask::new(
-            &agent,
-            AgentRouteDescriptor {
-                identity: Uuid::from_u128(1),
-                route: NODE.parse().unwrap(),
-                route_params: HashMap::new(),
-            },
-            AgentRouteChannels::new(att_rx, http_rx, link_tx),
-            stop_rx,
-            config,
-            None,
-        );
-        let fut = task.run_agent_with_store(ready(Ok(store)));
+        let descriptor = AgentRouteDescriptor {
+            identity: Uuid::from_u128(1),
+            route: NODE.parse().unwrap(),
+            route_params: HashMap::new(),
+        };
+        let channels = AgentRouteChannels::new(att_rx, http_rx, link_tx);
+        let mut cmd_tx = None;
+        let fut: AgentFut = match spec {
+            Spec::Model { .. } => {
+                let life = PLife { log: log.clone() };
+                let agent = AgentModel::new(PAgent::default, life.into_lifecycle());
+                let task = AgentRouteTask::new(&agent, descriptor, channels, stop_rx, config, None);
+                Box::pin(task.run_agent_with_store(ready(Ok(store))))
+            }
+            Spec::Late { early } => {
+                let (tx, rx) = mpsc::unbounded_channel();
+                cmd_tx = Some(tx);
+                let agent = LateAgent {
+                    log: log.clone(),
+                    early: early.clone(),
+                    cmds: Arc::new(Mutex::new(Some(rx))),
+                };
+                let task = AgentRouteTask::new(&agent, descriptor, channels, stop_rx, config, None);
+                Box::pin(task.run_agent_with_store(ready(Ok(store))))
+            }
+        };
         let keep: Vec<Box<dyn std::any::Any>> = vec![Box::new(http_tx), Box::new(link_rx)];
         Run {
             log,
             crash,
-            agent: Box::pin(fut),
+            agent: fut,
             ended: None,
             att_tx,
             stop_tx: Some(stop_tx),
             remotes: BTreeMap::new(),
             rbuf,
+            cmd_tx,
             _keep: Rc::new(RefCell::new(keep)),
         }
     }
@@ -645,6 +962,22 @@ impl Run {
                 Some(())
             }
             ["wait"] => self.with(tokio::time::sleep(Duration::from_millis(50))).await,
+            ["addlane", name, kind, t] => {
+                // the agent calls `AgentContext::add_lane` now; wait until the lane is initialised
+                let (done_tx, done_rx) = oneshot::channel();
+                if let Some(tx) = &self.cmd_tx {
+                    let _ = tx.send(AgentCmd::AddLane {
+                        name: name.to_string(),
+                        map: *kind == "map",
+                        transient: *t == "1",
+                        done: done_tx,
+                    });
+                }
+                self.with(async move {
+                    let _ = tokio::time::timeout(Duration::from_secs(3), done_rx).await;
+                })
+                .await
+            }
             _ => Some(()),
         };
         r
@@ -673,6 +1006,10 @@ impl Run {
 
 #[derive(Clone, Debug)]
 struct Plan {
+    /// `true`: the late rig (`LateAgent`), `false`: the `AgentModel` rig
+    late: bool,
+    /// late rig: after a restart the late lanes are registered during initialisation instead of at run time
+    reinit_early: bool,
     transient: bool,
     rbuf: usize,
     script: Vec<String>,
@@ -704,9 +1041,76 @@ fn in_rt<T>(f: impl FnOnce(&tokio::runtime::Runtime, &LocalSet) -> T) -> T {
     r
 }
 
+/// What remote 9 saw of `lane` up to its `synced`: the state a sync returned.
+fn seen_state(frames: &[(u64, String, String)], lane: &str, is_map: bool) -> String {
+    let mut synced = false;
+    let mut val: Option<String> = None;
+    let mut map: BTreeMap<String, String> = BTreeMap::new();
+    for (r, l, note) in frames {
+        if *r != 9 || l != lane || synced {
+            continue;
+        }
+        let w: Vec<&str> = note.split_whitespace().collect();
+        match w.as_slice() {
+            ["synced"] => synced = true,
+            ["event", "upd", k, v] => {
+                map.insert(k.to_string(), v.to_string());
+            }
+            ["event", "rem", k] => {
+                map.remove(*k);
+            }
+            ["event", "clr"] => map.clear(),
+            ["event", b] => val = Some(b.to_string()),
+            _ => {}
+        }
+    }
+    if !synced {
+        "none".to_string()
+    } else if is_map {
+        if map.is_empty() {
+            "map=-".into()
+        } else {
+            format!("map={}", map.iter().map(|(k, v)| format!("{}:{}", k, v)).collect::<Vec<_>>().join(","))
+        }
+    } else {
+        val.map(|v| format!("val={}", v)).unwrap_or_else(|| "none".into())
+    }
+}
+
+/// The late lanes of a plan, in order of their first `addlane` step: (name, map, transient).
+fn late_lanes_of(plan: &Plan) -> Vec<(String, bool, bool)> {
+    let mut out: Vec<(String, bool, bool)> = vec![];
+    for st in plan.script.iter().chain(plan.script2.iter()) {
+        let w: Vec<&str> = st.split_whitespace().collect();
+        if let ["addlane", name, kind, t] = w.as_slice() {
+            if !out.iter().any(|l| l.0 == *name) {
+                out.push((name.to_string(), *kind == "map", *t == "1"));
+            }
+        }
+    }
+    out
+}
+
+fn early_lanes() -> Vec<(String, bool, bool)> {
+    LATE_LANES.iter().filter(|l| l.3).map(|l| (l.0.to_string(), l.1, l.2)).collect()
+}
+
+fn spec_of(plan: &Plan, restarted: bool) -> Spec {
+    if plan.late {
+        let mut early = early_lanes();
+        if restarted && plan.reinit_early {
+            early.extend(late_lanes_of(plan));
+        }
+        Spec::Late { early }
+    } else {
+        Spec::Model { transient: plan.transient }
+    }
+}
+
 /// Restart a fresh agent against the same store, let `on_start` report, probe the stores and sync every lane
 /// (`restored` lines); then run `tail` (more commands through remote 9) and stop cleanly.
-fn restart_phase(log: &Arc<Mutex<Log>>, store: &RecStore, transient: bool, tail: &[String]) {
+/// Late rig: the late lanes are registered again (at run time, or during initialisation), then all are synced.
+fn restart_phase(log: &Arc<Mutex<Log>>, store: &RecStore, plan: &Plan, tail: &[String]) {
     {
         let mut l = log.lock();
         l.dead = false;
@@ -717,18 +1121,34 @@ fn restart_phase(log: &Arc<Mutex<Log>>, store: &RecStore, transient: bool, tail:
     }
     in_rt(|rt, local| {
         local.block_on(rt, async {
-            let mut run = Run::start(log.clone(), store.clone(), transient, 4096);
-            let probe = hex(b"\"probe\"");
-            let steps = vec![
-                "attach 9".to_string(),
-                format!("cmd 9 ctl {}", probe),
-                "wait".to_string(),
-                "sync 9 v".to_string(),
-                "sync 9 m".to_string(),
-                "sync 9 t".to_string(),
-                "sync 9 rep".to_string(),
-                "wait".to_string(),
-            ];
+            let mut run = Run::start(log.clone(), store.clone(), &spec_of(plan, true), 4096);
+            let steps: Vec<String> = if plan.late {
+                let mut v = vec!["attach 9".to_string()];
+                let lanes = late_lanes_of(plan);
+                if !plan.reinit_early {
+                    for (name, map, t) in &lanes {
+                        v.push(format!("addlane {} {} {}", name, if *map { "map" } else { "value" }, *t as u8));
+                    }
+                }
+                v.push("wait".into());
+                for (name, _, _) in early_lanes().iter().chain(lanes.iter()) {
+                    v.push(format!("sync 9 {}", name));
+                }
+                v.push("wait".into());
+                v
+            } else {
+                let probe = hex(b"\"probe\"");
+                vec![
+                    "attach 9".to_string(),
+                    format!("cmd 9 ctl {}", probe),
+                    "wait".to_string(),
+                    "sync 9 v".to_string(),
+                    "sync 9 m".to_string(),
+                    "sync 9 t".to_string(),
+                    "sync 9 rep".to_string(),
+                    "wait".to_string(),
+                ]
+            };
             for s in &steps {
                 log.lock().push(format!("do {}", s), "ok".into());
                 if run.step(s).await.is_none() {
@@ -737,69 +1157,45 @@ fn restart_phase(log: &Arc<Mutex<Log>>, store: &RecStore, transient: bool, tail:
             }
             // what remote 9 saw
             let frames = log.lock().frames.clone();
-            for lane in ["v", "m", "t"] {
-                let mut synced = false;
-                let mut val: Option<String> = None;
-                let mut map: BTreeMap<String, String> = BTreeMap::new();
+            if plan.late {
+                for (name, map, _) in early_lanes().iter().chain(late_lanes_of(plan).iter()) {
+                    let state = seen_state(&frames, name, *map);
+                    log.lock().push(format!("restored {}", name), state);
+                }
+            } else {
+                for lane in ["v", "m", "t"] {
+                    let state = seen_state(&frames, lane, lane == "m");
+                    log.lock().push(format!("restored {}", lane), state);
+                }
+                // the stores, through the probe report
+                let mut rep: Option<String> = None;
+                let mut rep_synced = false;
                 for (r, l, note) in &frames {
-                    if *r != 9 || l != lane || synced {
-                        continue;
-                    }
-                    let w: Vec<&str> = note.split_whitespace().collect();
-                    match w.as_slice() {
-                        ["synced"] => synced = true,
-                        ["event", "upd", k, v] => {
-                            map.insert(k.to_string(), v.to_string());
+                    if *r == 9 && l == "rep" && !rep_synced {
+                        let w: Vec<&str> = note.split_whitespace().collect();
+                        match w.as_slice() {
+                            ["synced"] => rep_synced = true,
+                            ["event", b] => rep = svh::unhex(b).and_then(|x| String::from_utf8(x).ok()),
+                            _ => {}
                         }
-                        ["event", "rem", k] => {
-                            map.remove(*k);
-                        }
-                        ["event", "clr"] => map.clear(),
-                        ["event", b] => val = Some(b.to_string()),
-                        _ => {}
                     }
                 }
-                let state = if !synced {
-                    "none".to_string()
-                } else if lane == "m" {
-                    if map.is_empty() {
-                        "map=-".into()
-                    } else {
-                        format!("map={}", map.iter().map(|(k, v)| format!("{}:{}", k, v)).collect::<Vec<_>>().join(","))
-                    }
-                } else {
-                    val.map(|v| format!("val={}", v)).unwrap_or_else(|| "none".into())
-                };
-                log.lock().push(format!("restored {}", lane), state);
-            }
-            // the stores, through the probe report
-            let mut rep: Option<String> = None;
-            let mut rep_synced = false;
-            for (r, l, note) in &frames {
-                if *r == 9 && l == "rep" && !rep_synced {
-                    let w: Vec<&str> = note.split_whitespace().collect();
-                    match w.as_slice() {
-                        ["synced"] => rep_synced = true,
-                        ["event", b] => rep = svh::unhex(b).and_then(|x| String::from_utf8(x).ok()),
-                        _ => {}
-                    }
+                let fields: HashMap<String, String> = rep
+                    .filter(|_| rep_synced)
+                    .map(|s| {
+                        s.trim_matches('"')
+                            .split(';')
+                            .filter_map(|kv| kv.split_once('=').map(|(k, v)| (k.to_string(), v.to_string())))
+                            .collect()
+                    })
+                    .unwrap_or_default();
+                for st in ["vs", "ms", "ts"] {
+                    let state = fields
+                        .get(st)
+                        .map(|x| format!("{}={}", if st == "ms" { "map" } else { "val" }, x))
+                        .unwrap_or_else(|| "none".into());
+                    log.lock().push(format!("restored {}", st), state);
                 }
-            }
-            let fields: HashMap<String, String> = rep
-                .filter(|_| rep_synced)
-                .map(|s| {
-                    s.trim_matches('"')
-                        .split(';')
-                        .filter_map(|kv| kv.split_once('=').map(|(k, v)| (k.to_string(), v.to_string())))
-                        .collect()
-                })
-                .unwrap_or_default();
-            for st in ["vs", "ms", "ts"] {
-                let state = fields
-                    .get(st)
-                    .map(|x| format!("{}={}", if st == "ms" { "map" } else { "val" }, x))
-                    .unwrap_or_else(|| "none".into());
-                log.lock().push(format!("restored {}", st), state);
             }
             // the restarted agent is live again: it keeps working (and persisting) after the restore
             log.lock().push("live".into(), "ok".into());
@@ -821,11 +1217,22 @@ fn run_plan(plan: &Plan) -> (Vec<(String, String)>, usize, usize) {
     let store = RecStore { inner: Arc::new(Mutex::new(StoreInner::default())), log: log.clone() };
     {
         let mut l = log.lock();
-        l.push(format!("cfg transient={} rbuf={}", plan.transient as u8, plan.rbuf), "ok".into());
-        for (name, kind, lane, flagged) in ITEMS {
-            let persistent = !*flagged && !(*lane && plan.transient);
-            let def = if *kind == "value" { hx(0) } else { "-".to_string() };
-            l.push(format!("item {} {} {} {}", name, kind, persistent as u8, def), "ok".into());
+        if plan.late {
+            l.push(
+                format!("cfg late rbuf={} reinit={}", plan.rbuf, if plan.reinit_early { "early" } else { "late" }),
+                "ok".into(),
+            );
+            for (name, map, transient) in early_lanes().iter().chain(late_lanes_of(plan).iter()) {
+                let (kind, def) = if *map { ("map", "-".to_string()) } else { ("value", hx(0)) };
+                l.push(format!("item {} {} {} {}", name, kind, !*transient as u8, def), "ok".into());
+            }
+        } else {
+            l.push(format!("cfg transient={} rbuf={}", plan.transient as u8, plan.rbuf), "ok".into());
+            for (name, kind, lane, flagged) in ITEMS {
+                let persistent = !*flagged && !(*lane && plan.transient);
+                let def = if *kind == "value" { hx(0) } else { "-".to_string() };
+                l.push(format!("item {} {} {} {}", name, kind, persistent as u8, def), "ok".into());
+            }
         }
         for s in &plan.script {
             l.push(format!("script {}", s), "ok".into());
@@ -845,7 +1252,7 @@ fn run_plan(plan: &Plan) -> (Vec<(String, String)>, usize, usize) {
     // ---- phase 1
     in_rt(|rt, local| {
         local.block_on(rt, async {
-            let mut run = Run::start(log.clone(), store.clone(), plan.transient, plan.rbuf);
+            let mut run = Run::start(log.clone(), store.clone(), &spec_of(plan, false), plan.rbuf);
             let mut alive = true;
             for s in &plan.script {
                 log.lock().push(format!("do {}", s), "ok".into());
@@ -874,10 +1281,10 @@ fn run_plan(plan: &Plan) -> (Vec<(String, String)>, usize, usize) {
         (l.nstore, l.nframe)
     };
     // ---- phase 2: restart against the same store, sync everything, then go on working
-    restart_phase(&log, &store, plan.transient, &plan.script2);
+    restart_phase(&log, &store, plan, &plan.script2);
     if !plan.script2.is_empty() {
         // ---- phase 3: the work done after the restore must itself survive a restart
-        restart_phase(&log, &store, plan.transient, &[]);
+        restart_phase(&log, &store, plan, &[]);
     }
     let lines = std::mem::take(&mut log.lock().lines);
     (lines, ns, nf)
@@ -1004,7 +1411,128 @@ fn gen_plan(rng: &mut Rng) -> Plan {
         }
         script2.push("wait".into());
     }
-    Plan { transient, rbuf, script, end: "stop".into(), script2 }
+    Plan { late: false, reinit_early: false, transient, rbuf, script, end: "stop".into(), script2 }
+}
+
+
+/// One command to a lane of the late rig.
+fn gen_late_cmd(rng: &mut Rng, lanes: &[(String, bool, bool)]) -> (String, String) {
+    let (name, map, _) = rng.pick(lanes).clone();
+    let val = if rng.chance(1, 10) { rng.below(100000) as i64 - 50000 } else { rng.below(40) as i64 - 5 };
+    let key = rng.range(1, 3) as i64;
+    if map {
+        let y = rng.below(100);
+        let body = if y < 70 {
+            format!("@update(key:{}) {}", key, val)
+        } else if y < 90 {
+            format!("@remove(key:{})", key)
+        } else {
+            "@clear".to_string()
+        };
+        (name, hex(body.as_bytes()))
+    } else {
+        (name, hex(val.to_string().as_bytes()))
+    }
+}
+
+/// A history of the late rig: traffic on the early lanes, lanes added while the agent runs (each followed, sooner
+/// or later, by links / syncs / commands on it), back-pressure, remote loss.
+fn gen_plan_late(rng: &mut Rng) -> Plan {
+    let rbuf = *rng.pick(&[40usize, 96, 4096, 4096]);
+    let two = rng.chance(1, 2);
+    let mut script: Vec<String> = vec!["attach 1".into()];
+    if two {
+        script.push("attach 2".into());
+    }
+    let remotes: Vec<u64> = if two { vec![1, 2] } else { vec![1] };
+    // lanes that exist so far
+    let mut lanes: Vec<(String, bool, bool)> = early_lanes();
+    // the lanes to add at run time: at least one persistent one
+    let mut to_add: Vec<(&str, bool, bool)> = vec![];
+    let first = *rng.pick(&[("lv", false, false), ("lm", true, false), ("lv", false, false)]);
+    to_add.push(first);
+    for cand in [("lv", false, false), ("lm", true, false), ("lw", false, false), ("lt", false, true), ("lmt", true, true)] {
+        if cand.0 != first.0 && rng.chance(1, 3) {
+            to_add.push(cand);
+        }
+    }
+    // shuffle
+    for i in 0..to_add.len() {
+        let j = i + rng.below((to_add.len() - i) as u64) as usize;
+        to_add.swap(i, j);
+    }
+    if rng.chance(1, 2) {
+        let r = *rng.pick(&remotes);
+        let l = rng.pick(&lanes).0.clone();
+        script.push(format!("{} {} {}", if rng.chance(1, 2) { "link" } else { "sync" }, r, l));
+    }
+    let n = rng.range(6, 24) as usize;
+    let mut add_at: Vec<usize> = to_add.iter().map(|_| rng.below(n as u64 * 2 / 3 + 1) as usize).collect();
+    add_at.sort();
+    let mut next_add = 0usize;
+    for i in 0..n {
+        while next_add < to_add.len() && add_at[next_add] <= i {
+            let (name, map, t) = to_add[next_add];
+            next_add += 1;
+            script.push(format!("addlane {} {} {}", name, if map { "map" } else { "value" }, t as u8));
+            lanes.push((name.to_string(), map, t));
+            // usually someone subscribes to the new lane straight away
+            if rng.chance(4, 5) {
+                let r = *rng.pick(&remotes);
+                script.push(format!("{} {} {}", if rng.chance(1, 2) { "link" } else { "sync" }, r, name));
+            }
+            if rng.chance(2, 3) {
+                let r = *rng.pick(&remotes);
+                let (l, body) = gen_late_cmd(rng, &[(name.to_string(), map, t)]);
+                script.push(format!("cmd {} {} {}", r, l, body));
+            }
+        }
+        let r = *rng.pick(&remotes);
+        let x = rng.below(100);
+        if x < 60 {
+            // commands mostly to the lanes added at run time
+            let pool: Vec<(String, bool, bool)> =
+                if lanes.len() > 2 && rng.chance(3, 4) { lanes[2..].to_vec() } else { lanes.clone() };
+            let (l, body) = gen_late_cmd(rng, &pool);
+            script.push(format!("cmd {} {} {}", r, l, body));
+        } else if x < 78 {
+            script.push("wait".into());
+        } else if x < 93 {
+            // now and then a lane that does not exist (yet)
+            let l = if rng.chance(1, 10) { "lw".to_string() } else { rng.pick(&lanes).0.clone() };
+            let verb = *rng.pick(&["link", "sync", "sync", "unlink"]);
+            script.push(format!("{} {} {}", verb, r, l));
+        } else if x < 98 {
+            script.push(format!("{} {}", if rng.chance(1, 2) { "stall" } else { "resume" }, r));
+        } else {
+            script.push(format!("drop {}", r));
+        }
+    }
+    if rng.chance(4, 5) {
+        script.push("wait".into());
+    }
+    // after the restart (the late lanes have been registered again): more commands, then a second restart
+    let mut script2: Vec<String> = vec![];
+    if rng.chance(3, 4) {
+        for _ in 0..rng.range(1, 5) {
+            let pool: Vec<(String, bool, bool)> = if lanes.len() > 2 { lanes[2..].to_vec() } else { lanes.clone() };
+            let (l, body) = gen_late_cmd(rng, &pool);
+            script2.push(format!("cmd 9 {} {}", l, body));
+            if rng.chance(1, 4) {
+                script2.push("wait".into());
+            }
+        }
+        script2.push("wait".into());
+    }
+    Plan {
+        late: true,
+        reinit_early: rng.chance(1, 3),
+        transient: false,
+        rbuf,
+        script,
+        end: "stop".into(),
+        script2,
+    }
 }
 
 /// A history and all its cuts.
@@ -1038,10 +1566,23 @@ fn run_family(t: &mut Trace, base: &Plan, tag: &str, max_cuts: usize, rng: &mut 
 }
 
 fn plan_of_ops(ops: &[String]) -> Plan {
-    let mut p = Plan { transient: false, rbuf: 4096, script: vec![], end: "stop".into(), script2: vec![] };
+    let mut p = Plan {
+        late: false,
+        reinit_early: false,
+        transient: false,
+        rbuf: 4096,
+        script: vec![],
+        end: "stop".into(),
+        script2: vec![],
+    };
     for op in ops {
         let w: Vec<&str> = op.split_whitespace().collect();
         match w.as_slice() {
+            ["cfg", "late", b, c] => {
+                p.late = true;
+                p.rbuf = b.split('=').nth(1).and_then(|s| s.parse().ok()).unwrap_or(4096);
+                p.reinit_early = c.ends_with("=early");
+            }
             ["cfg", a, b] => {
                 p.transient = a.ends_with("=1");
                 p.rbuf = b.split('=').nth(1).and_then(|s| s.parse().ok()).unwrap_or(4096);
@@ -1063,7 +1604,8 @@ fn main() {
             let mut t = Trace::create(&out);
             let mut rng = Rng::new(seed);
             for c in 0..cases {
-                let plan = gen_plan(&mut rng);
+                // every fourth history runs on the late rig (lanes registered while the agent is running)
+                let plan = if c % 4 == 3 { gen_plan_late(&mut rng) } else { gen_plan(&mut rng) };
                 run_family(&mut t, &plan, &format!("{} seed={}", c, seed), max_cuts, &mut rng);
             }
             t.finish();
